@@ -175,6 +175,8 @@ where
     }
     {
         let mut it = SignalIterator::new(&mut delivery);
+        let asked = std::cell::Cell::new(0u32);
+        let last_false = std::cell::Cell::new(false);
         let mut cb = |r: &mut UnixStream| -> Result<bool, std::io::Error> {
             // like the async adapters: one non-blocking read; "false" means the reactor is armed
             let mut b = [0u8; 1];
@@ -191,14 +193,22 @@ where
                 }
             };
             evlog::log(kind::CB_ASK, 0, match ans { Ok(true) => 1, Ok(false) => 0, Err(_) => 2 });
+            asked.set(asked.get() + 1);
+            last_false.set(matches!(ans, Ok(false)));
             ans
         };
         loop {
+            asked.set(0);
+            last_false.set(false);
             match it.poll_signal(&mut cb) {
                 PollResult::Signal(item) => note_item(&item, &sh),
                 PollResult::Closed => break,
                 PollResult::Pending => {
                     sh.parks.fetch_add(1, Ordering::SeqCst);
+                    if asked.get() == 0 || !last_false.get() {
+                        // an edge-triggered reactor has nothing armed now: the task would sleep forever
+                        sh.item_problems.lock().unwrap().push("UNARMED: poll_signal parked the consumer as Pending although its readiness callback did not answer 'nothing available' last in that call".to_string());
+                    }
                     // the "reactor": wait for readiness of the read end
                     let mut p = libc::pollfd { fd, events: libc::POLLIN, revents: 0 };
                     unsafe { libc::poll(&mut p, 1, -1) };
@@ -269,6 +279,8 @@ struct RoundCheck {
     last_yielded_seq_of_sig: HashMap<u64, u64>,
     /// stamp at which add_signal(sig) returned Ok
     ret_stamps: HashMap<u64, usize>,
+    /// last time the instance's own action ran for the signal (IT_A_STORED)
+    last_stored: HashMap<u64, usize>,
 }
 
 impl RoundCheck {
@@ -286,6 +298,7 @@ impl RoundCheck {
             yielded_seqs: HashSet::new(),
             last_yielded_seq_of_sig: HashMap::new(),
             ret_stamps: HashMap::new(),
+            last_stored: HashMap::new(),
         }
     }
 
@@ -309,6 +322,10 @@ impl RoundCheck {
                         tot.deliveries_nested_on_consumer += 1;
                     }
                     tot.deliveries += 1;
+                }
+                k if k == site::IT_A_STORED => {
+                    // an action of an iterator instance ran for signal a (the only instance is ours)
+                    self.last_stored.insert(e.a, stamp);
                 }
                 k if k == kind::ACT_BEGIN => {
                     // witness: seq b delivered in the innermost open bracket of this thread
@@ -382,12 +399,25 @@ impl RoundCheck {
     /// C09 at a stable point: every watched signal whose last delivery began after its add_signal
     /// returned must have a yield stamped after the ENTER of that delivery.
     fn stable_check(&self, tot: &mut Tot, label: &str) {
+        // whenever the instance's action ran for a signal (also in the middle of an add_signal), a yield must follow
+        for (sig, stored) in self.last_stored.iter() {
+            let ok = self.last_yield.get(sig).map(|y| *y > *stored).unwrap_or(false);
+            if !ok {
+                tot.bad09.push(format!(
+                    "stable lost state: the instance's action ran for signal {} (stamp {}) but the consumer is parked with no yield of it afterwards (last yield stamp {:?}) [{}]",
+                    sig, stored, self.last_yield.get(sig), label
+                ));
+            }
+        }
         for (sig, enter) in self.last_enter.iter() {
             match self.ret_stamps.get(sig) {
                 Some(ret) if *enter > *ret => {}
                 _ => continue,
             }
             let ok = self.last_yield.get(sig).map(|y| *y > *enter).unwrap_or(false);
+            if !ok {
+                // (reported below)
+            }
             if !ok {
                 tot.bad09.push(format!(
                     "stable lost state: signal {} delivered (last bracket began at stamp {}) but the consumer is parked with no yield of it afterwards (last yield stamp {:?}) [{}]",
@@ -528,14 +558,14 @@ where
         }
         if ph >= 2 {
             // a real delivery nested on the consumer at its own critical points
-            let csites = [site::IT_FLUSH_BEGIN, site::IT_FLUSH_END, site::IT_SCAN, site::IT_HAS_BEFORE_READ, site::IT_PS_LOOP, site::IT_PS_ITER_EMPTY, site::IT_PP_CLOSED_CHECKED, site::EX_LOAD];
+            let csites = [site::IT_FLUSH_BEGIN, site::IT_FLUSH_END, site::IT_SCAN, site::IT_HAS_BEFORE_READ, site::IT_PS_LOOP, site::IT_PS_ITER_EMPTY, site::IT_PP_CLOSED_CHECKED, site::EX_LOAD, site::CH_RECV_CELL_R, site::CH_RECV_TAKEN, site::CH_DEQ_ITER, site::CH_ENQ_ITER];
             let s = csites[((round / 4) as usize) % csites.len()];
             let sig = watched[(round as usize) % watched.len()];
             let spec = RuleSpec {
                 mode: mode::RAISE,
                 class_mask: class::CONSUMER,
                 ctx: ctx::OUTSIDE,
-                p: if s == site::IT_SCAN || s == site::EX_LOAD { 1500 } else { 30000 },
+                p: if s == site::IT_SCAN || s == site::EX_LOAD { 1500 } else if s >= site::CH_DEQ_ITER && s <= site::CH_SEND_FULL { 0 } else { 30000 },
                 arg: sig as usize,
                 a_filter: if s == site::IT_SCAN && round % 2 == 0 { sig as usize } else { usize::MAX },
                 budget: 3,
@@ -545,9 +575,11 @@ where
             director::set_rule(s, spec);
         }
         // ---- burst
-        let k = if round % 5 == 4 { rng.range(8, 20) } else { rng.range(1, 6) };
+        let long = round % 5 == 4 || (ph >= 2 && ((round / 4) as usize) % 12 >= 8);
+        let k = if long { rng.range(8, 20) } else { rng.range(1, 6) };
+        let one_sig = watched[(round as usize) % watched.len()];
         for i in 0..k {
-            let sig = if rng.chance(1, 8) { unwatched } else if added_extra && rng.chance(1, 4) { extra } else { *rng.pick(&watched) };
+            let sig = if long && rng.chance(7, 8) { one_sig } else if rng.chance(1, 8) { unwatched } else if added_extra && rng.chance(1, 4) { extra } else { *rng.pick(&watched) };
             let tgt = if rng.chance(1, 3) { 0 } else { 1 + rng.below(2) as usize };
             // target index 0 is not necessarily the consumer: look it up by kind
             let n = pool::N_TARGETS.load(Ordering::SeqCst);
@@ -571,7 +603,33 @@ where
             }
             if !added_extra && round >= cfg.rounds / 3 && i == k / 2 {
                 evlog::log(kind::CALL, 10, extra as u64);
+                director::set_rule(site::REG_DONE, RuleSpec { mode: mode::RAISE, class_mask: class::MAIN, nth: 1, arg: extra as usize, ..Default::default() });
+                for st in [site::IT_ADD_LOCKED, site::IT_ADD_REGISTERED] {
+                    director::set_rule(st, RuleSpec { mode: mode::DELAY, p: 0, max: 1 + rng.below(4000) as u32, ..Default::default() });
+                }
+                // a second thread adds the very same signal at the same moment (must be a no-op for one of them)
+                let h2 = handle.clone();
+                let go = Arc::new(AtomicBool::new(false));
+                let go2 = go.clone();
+                let twin = std::thread::spawn(move || {
+                    crate::set_thread(7, class::MUTATOR);
+                    director::seed_thread(extra as u64);
+                    while !go2.load(Ordering::SeqCst) {
+                        std::hint::spin_loop();
+                    }
+                    let r = h2.add_signal(extra);
+                    director::lib_exit();
+                    r.is_ok()
+                });
+                go.store(true, Ordering::SeqCst);
                 let r = handle.add_signal(extra);
+                let twin_ok = twin.join().unwrap_or(false);
+                if !twin_ok {
+                    tot.bad10.push(format!("a concurrent add_signal({}) from a second thread failed [{}]", extra, label));
+                }
+                director::rule_off(site::REG_DONE);
+                director::rule_off(site::IT_ADD_LOCKED);
+                director::rule_off(site::IT_ADD_REGISTERED);
                 evlog::log(kind::RET, 10, ((r.is_ok() as u64) << 32) | extra as u64);
                 director::lib_exit();
                 added_extra = true;
@@ -633,7 +691,9 @@ where
         }
     }
     for p in sh.item_problems.lock().unwrap().iter().take(3) {
-        if p.contains("origin") {
+        if p.starts_with("UNARMED") {
+            tot.bad09.push(format!("{} [{}]", p, label));
+        } else if p.contains("origin") {
             tot.bad17.push(format!("{} [{}]", p, label));
         } else {
             tot.bad10.push(format!("{} [{}]", p, label));
@@ -714,7 +774,7 @@ pub fn main(args: &[String]) -> i32 {
     director::uninstall();
     let mut nviol = 0;
     for b in tot.bad09.iter().take(4) {
-        emit_violation("C09", if b.contains("stable lost") { "stable-lost-signal" } else { "consumer-ended-early" }, b);
+        emit_violation("C09", if b.contains("stable lost") { "stable-lost-signal" } else if b.starts_with("UNARMED") { "pending-without-armed-wakeup" } else { "consumer-ended-early" }, b);
         nviol += 1;
     }
     for b in tot.bad10.iter().take(4) {
